@@ -3,6 +3,10 @@
 package oracle
 
 import (
+	abci "github.com/cometbft/cometbft/abci/types"
+
+	sdk "github.com/cosmos/cosmos-sdk/types"
+
 	vs "github.com/bandprotocol/chain/v3/vsupport"
 	"github.com/bandprotocol/chain/v3/x/oracle/keeper"
 )
@@ -12,3 +16,13 @@ func init() { vs.RegisterHarness("VerifC01EndBlock", VerifC01EndBlock) }
 // VerifC01EndBlock runs the real oracle EndBlocker from an arbitrary state (state construction and
 // assertions live next to the keeper, see keeper/zz_verif_c01.go).
 func VerifC01EndBlock() { keeper.VerifC01EndBlockWith(EndBlocker) }
+
+func init() { vs.RegisterHarness("VerifC14OracleBeginBlock", VerifC14OracleBeginBlock) }
+
+// VerifC14OracleBeginBlock: the oracle allocation step driven through the module's real BeginBlocker with the
+// last-commit votes in the context.
+func VerifC14OracleBeginBlock() {
+	keeper.VerifC14OracleBeginBlockWith(func(ctx sdk.Context, k keeper.Keeper, votes []abci.VoteInfo) error {
+		return BeginBlocker(ctx.WithVoteInfos(votes), k)
+	})
+}
